@@ -466,6 +466,22 @@ def run_macros(ctx):
         chk.unrecognised("C01.f", "<anchor> expansion witness", f"witness does not compile against the current macros: {w.get('messages')}")
         return
     chk.analysed["macros_x"] = x.stats()
+    # the label-collection form of the macros (`counter!("n", &labels)`) hands the collection to IntoLabels: every
+    # implementation returns its receiver or passes through the conversion of the whole iteration on every path — no
+    # way out before it (a `size_hint().0 == 0 => Vec::new()` fast path drops the labels of lazily sized collections)
+    from props.common import callee_method_name as _cmn
+
+    for f_ in m.fns:
+        if f_.name != "into_labels" or not (f_.j.get("impl_trait") or "").endswith("IntoLabels") or not f_.j.get("mir") or f_.parent is not None:
+            continue
+        r_ = sym_arg(Sym(f_).local(0))
+        if r_ is not None and r_[0] == 0:
+            chk.ob("C01.f", f"{f_.path} [all labels]", True, "returns its receiver", f_.loc(), nontrivial=False)
+            continue
+        sinks_ = {c.bb for c in f_.body.calls() if _cmn(c) in ("collect", "from_iter", "extend", "into_labels", "to_vec", "into_vec", "extend_from_slice")}
+        skip_ = [r for r in f_.body.return_blocks() if r in f_.body.reachable(0, cut=sinks_)]
+        okl = bool(sinks_) and not skip_
+        chk.ob("C01.f", f"{f_.path} [all labels]", okl, "every path converts the whole iteration" if okl else "a path returns without converting the collection's elements: the key reaches the recorder without (some of) the labels the call site spelled", f_.loc(), nontrivial=False)
     # arm counts
     for name, n in EXPECTED_ARMS.items():
         mac = m.macros.get(name)
